@@ -181,6 +181,29 @@ class Ctx:
         return sum(1 for i in self.instances if i["rule"] == rule)
 
 
+def transfer(ctx, src, mod, rules, key_filter=None, rename=None):
+    """Run another property's check in a scratch context and adopt the instances/findings of the given rules."""
+    sub = Ctx(ctx.prop, ctx.tier, ctx.seed)
+    mod.check(sub, src)
+    keep = (lambda k: True) if key_filter is None else key_filter
+    for i in sub.instances:
+        if i["rule"] in rules and keep(i["key"]):
+            i = dict(i)
+            i["rule"] = (rename or {}).get(i["rule"], i["rule"])
+            ctx.instances.append(i)
+    for f in sub.findings:
+        if f.rule in rules and keep(f.key):
+            f.rule = (rename or {}).get(f.rule, f.rule)
+            ctx.findings.append(f)
+    for u in sub.unresolved:
+        if u["rule"] in rules and keep(u["key"]):
+            ctx.unresolved.append(u)
+    for r in rules:
+        if r in sub.rules:
+            ctx.rules.setdefault((rename or {}).get(r, r), sub.rules[r])
+    ctx.functions |= sub.functions
+
+
 # ---------------------------------------------------------------------------
 # Known findings
 # ---------------------------------------------------------------------------
